@@ -10,6 +10,7 @@ fill).  The same instances are rendered by the real Report.WriteToWriter; afterw
 channels are inspected (left-over values), goroutines counted, and the printed rows compared with the
 closing price, the normalised action and the outcome of each date computed independently."""
 import datetime
+import os
 import random
 import time
 
@@ -96,7 +97,8 @@ def main():
     rng = random.Random(vlib.seed())
     vlib.build_harness()
     entries = [e for e in pe.catalogue() if e["class"] in ("strategy", "compound")]
-    cases = pe.build_cases(entries, tier, [0], rng, max_alt=1 if tier == "quick" else 4)
+    cases = pe.build_cases(entries, tier, [0], rng, max_alt=1 if tier == "quick" else 4,
+                           max_alt_multi=2 if tier == "quick" else 5)
     for c in cases:
         c.rec_len = 2 * sum(c.cfg) + 16
     reqs = [{"id": "rec%d" % i, "pipe": c.pipe, "cfg": c.cfg, "cap": 0, "lens": [c.rec_len], "data": {"seed": 7},
@@ -283,6 +285,9 @@ def main():
                 tm = list(t["out"].values())[0]
                 cov.samples.append({"pipe": c.pipe, "cfg": c.cfg, "n": n, "real_cols": cols, "real_last_row": rows[-1] if rows else None,
                                     "model_row_of_last_date": [(e["col"], e["tok"]["hi"], e["tok"]["fill"]) for e in tm if e["d"] == n - 1]})
+    # ---- beyond the property: the report's bookkeeping of columns and chart views (spec/ReportViews.tla)
+    import check_c14_views
+    vcov = check_c14_views.run(tier, V, machinery) if not os.environ.get("VERIF_ONLY") else {}
     rc = V.finish()
     for m in machinery[:40]:
         print("MACHINERY: " + m)
@@ -293,7 +298,7 @@ def main():
                 "consumer; every instance rendered by the real code, column channels inspected, rows compared with an "
                 "independent computation of close / normalised action / outcome; every instance is non-trivial",
         "tlc_runs": cov.tlc_runs, "instances": cov.instances, "strategies": len(entries), "exhaustive": False,
-        "notes": cov.notes[:40], "machinery": machinery[:40], "known_findings_hit": V.hit},
+        "notes": cov.notes[:40], "machinery": machinery[:40], "known_findings_hit": V.hit, **vcov},
         time.time() - t0, len(V.new),
         assumptions=["the Template process follows helper/report.tmpl (range .Date, then every column's Value in order)",
                      "indicator-column alignment (value plotted against the date it was computed for) is decided on the model's "
